@@ -123,6 +123,17 @@ func (m *C07Monitor) AfterTx(c *Chain, ctx sdk.Context, tx sdk.Tx, ok bool) {
 		switch x := msg.(type) {
 		case *oracletypes.MsgUpdateCyclelist:
 			m.govTouched = true
+		case *oracletypes.MsgTip:
+			// a tip that waits on a round without reports stays with the query: another tip (before or after the
+			// window closed) only adds to it
+			qid := string(QueryID(x.QueryData))
+			if pq, had := m.queries[qid]; had && pq.Amount.IsPositive() && !pq.HasRevealedReports {
+				m.st.Count("c07.tip-kept-by-tx.evals")
+				m.st.Bucket("c07|retip|window-closed=%v", pq.Expiration < h)
+				if cur, err := c.App.OracleKeeper.CurrentQuery(ctx, []byte(qid)); err != nil || cur.Amount.LT(pq.Amount.Add(x.Amount.Amount.Sub(x.Amount.Amount.MulRaw(2).QuoRaw(100)))) {
+					c.Violate("C07", "c07", "waiting-tip-lost-when-the-query-was-tipped-again", map[string]interface{}{"before": pq.Amount.String(), "tip": x.Amount.Amount.String(), "after": cur.Amount.String(), "window_closed": pq.Expiration < h})
+				}
+			}
 		case *oracletypes.MsgSubmitValue:
 			m.st.Count("c07.accepted-report.evals")
 			qid := string(QueryID(x.QueryData))
